@@ -18,6 +18,8 @@ def run(tier, seed, work):
     mc = [("MC_Relayer.tla", "MC_Relayer_quick.cfg" if quick else "MC_Relayer_thorough.cfg"), ("MC_Voted.tla", "MC_Voted_quick.cfg")]
     per, depth, nj = (8, 30, 16) if quick else (40, 40, 16)
     groups = [("Trace_Relayer.tla", "Trace_Relayer_C02.cfg", rc.jobs(seed, per, depth, nj, 3, 2, "c02")),
+              # the sequence and the accumulator must survive a restart from an exported state (a reset sequence re-opens used votes)
+              ("Trace_Relayer.tla", "Trace_Relayer_C02_reimport.cfg", [("c02reimp_%d" % j, ["reimport", "-n", 2 if quick else 12, "-depth", 30, "-seed", seed * 1000 + 350 + j, "-mode", "relayer"]) for j in range(4 if quick else 8)]),
               ("Trace_Relayer.tla", "Trace_Relayer_C02_static.cfg", [("c02table", ["voted", "-cases", os.path.join(work, "cases.ndjson"), "-inst", 1, "-seed", seed + 9])])]
     return verif.run_stateful_check("C02", tier, seed, work, mc_list=mc, groups=groups, key_fn=rc.key,
                                     level="model_checking", assumptions=ASSUME, rule=RULE)
